@@ -192,6 +192,13 @@ func condWaitStates(c *Ctx, fn *ssa.Function) map[ssa.Instruction]StateSet {
 
 // ctxDoneOf: v is (a copy of) the result of Done() on a context.
 func ctxDoneOf(v ssa.Value) (ssa.Value, bool) {
+	if inner, _, ok := chanThroughStruct(v); ok {
+		// a field of a struct a helper filled in (a := s.aborts(ctx); <-a.ctxDone): what the helper stored
+		if _, isDone := ctxDoneOf(inner); isDone {
+			return v, true
+		}
+		return nil, false
+	}
 	for _, lf := range valueLeaves(v, nil, 0) {
 		if p, isP := lf.v.(*ssa.Parameter); isP {
 			// a channel parameter of a helper: ctx.Done() at every call site
@@ -536,8 +543,44 @@ func ruleCondCapacity(c *Ctx, r *R) {
 	caps := map[int64]bool{}
 	for i, mc := range sites {
 		kv, ok := evalConst(mc.Size, 0)
-		good := ok && kv >= 1
-		if good {
+		if !ok {
+			// the capacity is a parameter of an unexported constructor: what every call site passes (all the same constant)
+			if p, isP := resolveVal(mc.Size).(*ssa.Parameter); isP && p.Parent() != nil && !token.IsExported(p.Parent().Name()) {
+				idx := paramIndex(p)
+				css := callSitesOf(c, p.Parent())
+				all := len(css) > 0
+				var v0 int64
+				for k, site := range css {
+					if idx >= len(site.Call.Args) {
+						all = false
+						break
+					}
+					v, vok := evalConst(site.Call.Args[idx], 0)
+					if !vok || (k > 0 && v != v0) {
+						all = false
+						break
+					}
+					v0 = v
+				}
+				if all {
+					kv, ok = v0, true
+				}
+			}
+		}
+		inherits := false
+		if !ok {
+			// make(chan struct{}, cap(c.ch)): the replacement keeps the capacity of the channel it replaces - valid whenever
+			// every other creation site is
+			if call, isCall := resolveVal(mc.Size).(*ssa.Call); isCall && len(call.Call.Args) == 1 {
+				if bi, isB := call.Call.Value.(*ssa.Builtin); isB && bi.Name() == "cap" {
+					if ld, isLd := call.Call.Args[0].(*ssa.UnOp); isLd && ld.Op == token.MUL && isCondChanFieldAddr(c, ld.X) {
+						inherits = true
+					}
+				}
+			}
+		}
+		good := (ok && kv >= 1) || inherits
+		if ok && kv >= 1 {
 			caps[kv] = true
 		}
 		pos := mc.Pos()
